@@ -396,17 +396,17 @@ void make_items(const Options& o, std::vector<Item>& items)
 {
     add(o, items, "publication: guarded<Box,mutex> lock .. lock", [] { guarded_prog<std::mutex>(); });
     add(o, items, "publication: guarded<Box,timed_mutex> lock .. lock", [] { guarded_prog<std::timed_mutex>(); });
-    add(o, items, "publication: shared_guarded<Box,shared_timed_mutex> lock .. 2x lock_shared", [] { shared_prog<std::shared_timed_mutex>(); }, 2, 4);
-    add(o, items, "publication: shared_guarded<Box,shared_mutex> lock .. 2x lock_shared", [] { shared_prog<std::shared_mutex>(); }, 2, 4);
-    add(o, items, "publication: shared_guarded<Box,mutex> lock .. 2x lock_shared", [] { shared_prog<std::mutex>(); }, 2, 4);
+    add(o, items, "publication: shared_guarded<Box,shared_timed_mutex> lock .. 2x lock_shared", [] { shared_prog<std::shared_timed_mutex>(); }, 3, 4);
+    add(o, items, "publication: shared_guarded<Box,shared_mutex> lock .. 2x lock_shared", [] { shared_prog<std::shared_mutex>(); }, 3, 4);
+    add(o, items, "publication: shared_guarded<Box,mutex> lock .. 2x lock_shared", [] { shared_prog<std::mutex>(); }, 3, 4);
     add(o, items, "publication: ordered_guarded<Box,shared_timed_mutex> modify .. read/load", [] { ordered_prog<std::shared_timed_mutex>(); });
     add(o, items, "publication: ordered_guarded<Box,mutex> modify .. read/load", [] { ordered_prog<std::mutex>(); });
     add(o, items, "publication: lr_guarded<Box> 2x modify .. 1 reader x 2", [] { lr_prog(1); });
-    add(o, items, "publication: lr_guarded<Box> 2x modify .. 2 readers x 2", [] { lr_prog(2); }, 2, 3);
-    add(o, items, "publication: cow_guarded<Box> commit .. 2 snapshots", [] { cow_prog(); }, 2, 4);
+    add(o, items, "publication: lr_guarded<Box> 2x modify .. 2 readers x 2", [] { lr_prog(2); }, 3, 3);
+    add(o, items, "publication: cow_guarded<Box> commit .. 2 snapshots", [] { cow_prog(); }, 3, 4);
     add(o, items, "publication: deferred_guarded<Box> modify_detach .. 2x lock_shared", [] { deferred_prog(); });
-    add(o, items, "publication: rcu_list<Box> push_front | traversal | erase", [] { rcu_prog(true); }, 2, 3);
-    add(o, items, "publication: rcu_list<Box> emplace_back | traversal | erase", [] { rcu_prog(false); }, 2, 3);
+    add(o, items, "publication: rcu_list<Box> push_front | traversal | erase", [] { rcu_prog(true); }, 3, 3);
+    add(o, items, "publication: rcu_list<Box> emplace_back | traversal | erase", [] { rcu_prog(false); }, 3, 3);
     add(o, items, "publication: Latch arrive, arrive .. wait", [] { latch_prog(); });
     add(o, items, "publication: Barrier two generations", [] { barrier_prog(); });
     add(o, items, "publication: TriggerVariable trigger .. wait / isTriggered", [] { trigger_prog(); });
